@@ -302,3 +302,33 @@ def heap_pairs(n=12, k=2):
                 continue
             idx += 1
             yield idx, (A, ('dfa', n, k, tuple(d), 0, fb))
+
+
+def anchored_swap_family(anchors=10):
+    """Thin family with MANY Nerode classes (wave 5): 4 letters, one accepting sink (state 0), `anchors` anchor states
+    with pairwise different one-step behaviour (anchor i goes to the sink on its own subset of the letters and to the next
+    anchor otherwise), and two states v, w whose successors X, Y under two chosen letters are swapped (v is initial; on
+    the other letters v and w go to each other).  All states are reachable and pairwise distinguishable, so a minimiser
+    must return anchors + 3 states; a refinement that confuses class numbers >= 10 (two-digit keys) merges v and w.
+    All ordered letter pairs x all ordered pairs (X, Y) of non-sink states."""
+    k = 4
+    subsets = [S for r in (1, 2, 3) for S in itertools.combinations(range(k), r)][:anchors]
+    A = list(range(1, anchors + 1))
+    v, w = anchors + 1, anchors + 2
+    n = anchors + 3
+    idx = 0
+    for (la, lb) in itertools.permutations(range(k), 2):
+        for (X, Y) in itertools.permutations(A + [v, w], 2):
+            if {X, Y} == {v, w}:
+                continue
+            d = [0] * (n * k)
+            for i, S in enumerate(subsets):
+                for c in range(k):
+                    d[A[i] * k + c] = 0 if c in S else A[(i + 1) % anchors]
+            for c in range(k):
+                d[v * k + c] = w
+                d[w * k + c] = v
+            d[v * k + la], d[v * k + lb] = X, Y
+            d[w * k + la], d[w * k + lb] = Y, X
+            yield idx, ('dfa', n, k, tuple(d), v, 1)
+            idx += 1
